@@ -156,6 +156,8 @@ var builtinCorpus = []string{
 	"SELECT a AS \"select\" FROM t", "SELECT a AS \"Order\", b AS \"group\" FROM t", "SELECT a FROM \"from\"", "SELECT a FROM t AS \"where\"", "SELECT t.\"select\" FROM t", "SELECT \"select\" FROM t",
 	"UPDATE \"table\" SET \"set\" = 1", "INSERT INTO \"into\" (\"values\") VALUES (1)",
 	"SELECT 1",
+	"INSERT INTO t (a) SELECT a FROM s RETURNING a", "INSERT INTO t (a) SELECT a FROM s WHERE a > 1 ON CONFLICT (a) DO NOTHING", "INSERT INTO t (a) SELECT a FROM s ON DUPLICATE KEY UPDATE a = 1",
+	"INSERT INTO t (a, b) SELECT a, b FROM s ON CONFLICT (a) DO UPDATE SET b = 2 RETURNING a, b", "WITH c AS (SELECT a FROM s) INSERT INTO t (a) SELECT a FROM c RETURNING a",
 	"SELECT a, b AS c, t.d, t.* FROM t WHERE a = 1 AND b <> 'x' OR NOT c",
 	"SELECT DISTINCT a FROM t1, t2 AS u WHERE t1.id = u.id",
 	"SELECT a FROM t INNER JOIN u ON t.id = u.id LEFT JOIN v ON v.k = u.k RIGHT JOIN w USING (k) CROSS JOIN x NATURAL JOIN y FULL OUTER JOIN z ON z.a = t.a",
